@@ -3,6 +3,8 @@
 #include <algorithm>
 #include <functional>
 #include <set>
+#define SANHOOKS_IMPL
+#include "sanhooks.h"
 #include "busmon.h"
 #include "busworld.h"
 
@@ -119,9 +121,9 @@ static size_t g_curIdx = 0;
 static vp::Explorer* g_curEx = nullptr;
 static bool g_inRun = false, g_isReplay = false;
 static std::string g_out;
-extern "C" void __sanitizer_set_death_callback(void (*callback)(void)) __attribute__((weak));
-static void onSanitizerDeath() {
+static void onSanitizerDeath(const char* which) {
   if (!g_inRun || g_curEx == nullptr) return;
+  (void)which;
   g_inRun = false;
   // the choices taken so far identify the execution (later defaults are implied)
   std::string cs = scenarioCase(*g_curProp, g_curIdx, *g_curEx);
@@ -612,7 +614,7 @@ int main(int argc, char** argv) {
   g_tier = A.tier;
   g_out = A.out;
   g_isReplay = A.replay;
-  if (__sanitizer_set_death_callback) __sanitizer_set_death_callback(onSanitizerDeath);
+  vp::g_onSanitizerReport = onSanitizerDeath;
   validateEvery = A.getInt("validate-every", 0);
   validateMaxK = A.getInt("validate-maxk", 1);
   bool th = A.thorough();
